@@ -827,3 +827,170 @@ func (r *Run) RequireOnSuccessExcept(rule, fnRef string, exceptPats []string, re
 		r.Check(rule, fnRef+": "+q.Name, pos, ok && n > 0, detail)
 	}
 }
+
+// RequireCallOrder: the named callees are each called in fnRef and in this order:
+// every call of callee[i+1] is dominated by a call of callee[i].
+func (r *Run) RequireCallOrder(rule, fnRef, name string, callees ...string) {
+	fn := r.fn(rule, fnRef)
+	if fn == nil {
+		return
+	}
+	find := func(c string) []ssa.CallInstruction {
+		var out []ssa.CallInstruction
+		for _, b := range fn.Blocks {
+			for _, in := range b.Instrs {
+				if ci, ok := in.(*ssa.Call); ok {
+					n := calleeName(ci.Common())
+					if n == c || (strings.HasSuffix(c, "*") && strings.HasPrefix(n, strings.TrimSuffix(c, "*"))) {
+						out = append(out, ci)
+					}
+				}
+			}
+		}
+		return out
+	}
+	before := func(a, b ssa.Instruction) bool {
+		if a.Block() == b.Block() {
+			for _, in := range a.Block().Instrs {
+				if in == a {
+					return true
+				}
+				if in == b {
+					return false
+				}
+			}
+		}
+		return a.Block().Dominates(b.Block())
+	}
+	ok := true
+	detail := strings.Join(callees, " -> ")
+	var prev []ssa.CallInstruction
+	for i, c := range callees {
+		cur := find(c)
+		if len(cur) == 0 {
+			ok = false
+			detail = "missing call to " + c
+			break
+		}
+		if i > 0 {
+			for _, x := range cur {
+				dom := false
+				for _, p := range prev {
+					if before(p, x) {
+						dom = true
+					}
+				}
+				if !dom && i == len(callees)-1 || !dom && len(cur) == 1 {
+					ok = false
+					detail = c + " is not preceded by " + callees[i-1] + " on every path"
+				}
+			}
+		}
+		prev = cur
+	}
+	r.Check(rule, fnRef+": "+name, r.P.Pos(fn.Pos()), ok, detail)
+}
+
+// globCapture matches like glob and returns the text matched by each '*' (nil if no match).
+func globCapture(pat, s string) []string {
+	parts := strings.Split(pat, "*")
+	if len(parts) == 1 {
+		if pat == s {
+			return []string{}
+		}
+		return nil
+	}
+	if !strings.HasPrefix(s, parts[0]) {
+		return nil
+	}
+	s = s[len(parts[0]):]
+	last := parts[len(parts)-1]
+	var caps []string
+	for _, m := range parts[1 : len(parts)-1] {
+		i := strings.Index(s, m)
+		if i < 0 {
+			return nil
+		}
+		caps = append(caps, s[:i])
+		s = s[i+len(m):]
+	}
+	if !strings.HasSuffix(s, last) {
+		return nil
+	}
+	return append(caps, s[:len(s)-len(last)])
+}
+
+// fieldStores returns, for stores into fields of a struct built locally in fn
+// ("{...}.Field := value"), the value term per field name.  A field stored twice with
+// different values maps to "<conflict>".
+func (r *Run) fieldStores(fn *ssa.Function) map[string]string {
+	out := map[string]string{}
+	for _, s := range r.P.Facts(fn).StoreFacts() {
+		i := strings.Index(s.S, " := ")
+		if i < 0 {
+			continue
+		}
+		lhs, rhs := s.S[:i], s.S[i+4:]
+		if !strings.HasPrefix(lhs, "{") && !strings.HasPrefix(lhs, "local:complit.") {
+			continue
+		}
+		j := strings.LastIndex(lhs, ".")
+		if j < 0 || strings.ContainsAny(lhs[j+1:], "}])") {
+			continue
+		}
+		f := lhs[j+1:]
+		if old, ok := out[f]; ok && old != rhs {
+			rhs = "<conflict>"
+		}
+		out[f] = rhs
+	}
+	return out
+}
+
+// fieldStoreValues: SSA value stored per field name into structs allocated in fn
+// (composite literals); nil value marks conflicting stores.
+func fieldStoreValues(fn *ssa.Function) map[string]ssa.Value {
+	out := map[string]ssa.Value{}
+	for _, b := range fn.Blocks {
+		for _, in := range b.Instrs {
+			st, ok := in.(*ssa.Store)
+			if !ok {
+				continue
+			}
+			fa, ok := st.Addr.(*ssa.FieldAddr)
+			if !ok {
+				continue
+			}
+			switch fa.X.(type) {
+			case *ssa.Alloc, *ssa.IndexAddr:
+			default:
+				continue
+			}
+			stt := derefStruct(fa.X.Type())
+			if stt == nil {
+				continue
+			}
+			name := stt.Field(fa.Field).Name()
+			if old, ok := out[name]; ok && old != st.Val {
+				out[name] = nil
+				continue
+			}
+			out[name] = st.Val
+		}
+	}
+	return out
+}
+
+// callHasArg: v is a call one of whose arguments is exactly the SSA value a.
+func callHasArg(v, a ssa.Value) bool {
+	c, ok := v.(*ssa.Call)
+	if !ok || a == nil {
+		return false
+	}
+	for _, x := range c.Call.Args {
+		if x == a {
+			return true
+		}
+	}
+	return false
+}
